@@ -95,16 +95,18 @@ def dataid_def(ctx: Ctx) -> List[Ob]:
     obs: List[Ob] = []
     m = ctx.model
     f = m.func("Node.__init__")
-    ifs = [n for n in f.body if isinstance(n, ast.If) and match("data_id is None", n.test) is not None]
+    ifs = [n for n in f.body if isinstance(n, ast.If) and (match("data_id is None", n.test) is not None or match("data_id is not None", n.test) is not None)]
     ok = len(ifs) == 1 and len(ifs[0].body) == 1 and len(ifs[0].orelse) == 1
     if ok:
+        derive_branch, given_branch = (ifs[0].body[0], ifs[0].orelse[0]) if match("data_id is None", ifs[0].test) is not None else (ifs[0].orelse[0], ifs[0].body[0])
+
         def rhs(st):
             if isinstance(st, ast.AnnAssign) and norm(st.target) == "self._data_id":
                 return st.value
             if isinstance(st, ast.Assign) and norm(st.targets[0]) == "self._data_id":
                 return st.value
             return None
-        a, b = rhs(ifs[0].body[0]), rhs(ifs[0].orelse[0])
+        a, b = rhs(derive_branch), rhs(given_branch)
         ok = a is not None and b is not None and match("$t.calc_data_id(data)", a) is not None and match("data_id", b) is not None
     obs.append(ctx.ob("DATAID-DEF", ["C02", "C07"], f, "Node.__init__: explicit data_id wins, else tree.calc_data_id(data)", None, ok,
                       "" if ok else "the explicit id must be used as given (also 0 / ''), the derived one only when none was passed"))
@@ -201,6 +203,15 @@ def kind_branch(ctx: Ctx) -> List[Ob]:
         ok = bool(cmps) or bool(deleg)
         obs.append(ctx.ob("KIND-BRANCH", ["C15"], f, f"{name}: the kind branch compares with the node's own kind (or delegates to a kind-aware query)", None, ok,
                           "" if ok else "siblings of the same kind only"))
+    for name in ("prev_sibling", "next_sibling", "first_child", "last_child", "first_sibling", "last_sibling"):
+        f = m.func(f"TypedNode.{name}")
+        bad = []
+        for lp in [n for n in iter_own(f.node) if isinstance(n, ast.For)]:
+            for st in lp.body:
+                if isinstance(st, (ast.Return, ast.Break)):
+                    bad.append(st)
+        obs.append(ctx.ob("KIND-BRANCH", ["C15"], f, f"{name}: the scan only stops at a node of the wanted kind (no unconditional exit in the loop)", None, not bad,
+                          "" if not bad else f"`{norm(bad[0])}` ends the scan after the first candidate: with interleaved kinds the match further away is missed"))
     f = m.func("TypedNode.get_siblings")
     lc = [n for n in iter_own(f.node) if isinstance(n, ast.ListComp)]
     ok = False
@@ -222,6 +233,10 @@ def kind_branch(ctx: Ctx) -> List[Ob]:
     f = m.func("TypedTree.iter_by_type")
     ok = has("$n._kind == kind", f.node) or has("$n.kind == kind", f.node)
     obs.append(ctx.ob("KIND-BRANCH", ["C15"], f, "iter_by_type yields the nodes whose _kind == kind", None, ok, ""))
+    tests = [n.test for n in iter_own(f.node) if isinstance(n, ast.If) and "ANY_KIND" in norm(n.test)]
+    ok = len(tests) == 1 and (match("kind is ANY_KIND", tests[0]) is not None or match("kind == ANY_KIND", tests[0]) is not None)
+    obs.append(ctx.ob("KIND-BRANCH", ["C15"], f, "iter_by_type: only ANY_KIND selects all nodes (no truthiness test on kind: '' is a kind)", None, ok,
+                      "" if ok else f"`{norm(tests[0]) if tests else '?'}`: an empty-string kind would iterate everything"))
     # a generator that `return <value>`s loses the value: the ANY_KIND branch must yield
     gen = any(isinstance(x, (ast.Yield, ast.YieldFrom)) for x in iter_own(f.node))
     bad = [r for r in _returns(f)] if gen else []
@@ -260,6 +275,9 @@ def parent_walk(ctx: Ctx) -> List[Ob]:
         w = wh(f)
         e = match("$p is not None and $p._parent is not None", w.test) if w is not None else None
         ok = e is not None and match("$p = $p._parent", w.body[-1], e) is not None and has(start, f.node, e)
+        if q == "Node.is_descendant_of" and w is None:
+            # equivalent form: scan the list of proper ancestors
+            ok = any(isinstance(n, ast.For) and match("self.get_parent_list()", n.iter) is not None for n in iter_own(f.node))
         obs.append(ctx.ob("PARENT-WALK", ["C10"], f, f"{q} walks the proper ancestors and stops before the system root", None, ok, "" if ok else "the system root is not an ancestor"))
     f = m.func("Node.is_descendant_of")
     o = _first_param(f)
@@ -329,6 +347,10 @@ def parent_walk(ctx: Ctx) -> List[Ob]:
         gn = g[0].name
         ok = has(f"{gn}($n, $h + 1)", g[0].node) and has("$h > $H", g[0].node) and has(f"{gn}(self, 0)", f.node)
     obs.append(ctx.ob("PARENT-WALK", ["C10"], f, "calc_height: maximal leaf depth below self (0 for leaves)", None, ok, ""))
+    f = m.func("Node.get_path")
+    ok = any(match("separator + separator.join($r)", r.value) is not None for r in _returns(f)) and has("self.get_parent_list(add_self=add_self)", f.node)
+    obs.append(ctx.ob("PARENT-WALK", ["C10"], f, "get_path starts with and joins by the caller's separator over the ancestor list", None, ok,
+                      "" if ok else "a hard-coded '/' ignores the separator argument"))
     f = m.func("Node.get_common_ancestor")
     o = _first_param(f)
     ok = has(f"self._tree is {o}._tree", f.node) and has(f"{o}.get_parent_list(add_self=True)", f.node) and has("self.get_parent_list(add_self=True, bottom_up=True)", f.node) \
@@ -363,14 +385,34 @@ def frame(ctx: Ctx) -> List[Ob]:
         obs.append(ctx.ob("FRAME", ["C04"], f, f"{q} writes only {sorted(allowed)}", None, not es,
                           "" if not es else f"also writes: {es[0].describe()} - every other node must keep its identity, data, id, metadata, parent and order"))
     f = m.func("Node.set_meta")
-    ifs = [n for n in f.body if isinstance(n, ast.If)]
-    tb = {}
-    if ifs:
-        tb = {(norm(t) if t is not None else "else"): b for t, b in _if_chain(ifs[0])}
-    ok = len(tb) == 3 and "value is None" in tb and "self._meta is None" in tb and "else" in tb \
-        and len(tb["value is None"]) == 1 and match("self.clear_meta(key)", tb["value is None"][0]) is not None \
-        and len(tb["self._meta is None"]) == 1 and match("self._meta = {key: value}", tb["self._meta is None"][0]) is not None \
-        and len(tb["else"]) == 1 and match("self._meta[key] = value", tb["else"][0]) is not None
+
+    def guard_of(node_):
+        """tests (positive) and negated tests that hold where node_ executes"""
+        pos, neg = [], []
+        ch, p_ = node_, m.parent_of(node_)
+        while p_ is not None and p_ is not f.node:
+            if isinstance(p_, ast.If):
+                if any(ch is x for x in p_.body):
+                    pos.append(norm(p_.test))
+                else:
+                    neg.append(norm(p_.test))
+            ch, p_ = p_, m.parent_of(p_)
+        # early returns before node_: `if T: ...; return` at the same level negate T
+        for st in f.body:
+            if isinstance(st, ast.If) and st.lineno < getattr(node_, "lineno", 0) and st.body and isinstance(st.body[-1], ast.Return) and not any(node_ is x for x in ast.walk(st)):
+                neg.append(norm(st.test))
+        return pos, neg
+
+    c1 = find("self.clear_meta(key)", f.node)
+    c2 = find("self._meta = {key: value}", f.node)
+    c3 = find("self._meta[key] = value", f.node)
+    ok = len(c1) == 1 and len(c2) == 1 and len(c3) == 1
+    if ok:
+        g1, g2, g3 = guard_of(c1[0][0]), guard_of(c2[0][0]), guard_of(c3[0][0])
+        ok = g1[0] == ["value is None"] and g2[0] == ["self._meta is None"] and "value is None" in g2[1] \
+            and not g3[0] and {"value is None", "self._meta is None"} <= set(g3[1])
+    writes = [e for e in ctx.fx.direct[f]]
+    ok = ok and len(writes) == 2
     obs.append(ctx.ob("FRAME", ["C04"], f, "set_meta: None removes the key, first value creates the dict, else stores", None, ok, "" if ok else "metadata edit semantics changed"))
     f = m.func("Node.clear_meta")
     e = one("$m = self._meta", f.node)
@@ -535,9 +577,9 @@ def gen(ctx: Ctx) -> List[Ob]:
         lp = lps[0]
         k = norm(lp.target)
         ok = has("$v = $v.generate()", lp) and has(f"if $v is None:\n    {rm}.append({k})\nelse:\n    {d}[{k}] = $v", lp) \
-            and has(f"if macros and isinstance($v, str):\n    {d}[{k}] = $v.format(**macros)", lp)
-        obs.append(ctx.ob("GEN", ["C20"], f, "randomizers are resolved, only None results are skipped (0/False/'' are values), string values macro-expanded", None, ok,
-                          "" if ok else "a legal falsy random value must not be dropped"))
+            and any(match(f"if macros and isinstance($v, str):\n    {d}[{k}] = $v.format(**macros)", st) is not None for st in lp.body)
+        obs.append(ctx.ob("GEN", ["C20"], f, "randomizers are resolved, only None results are skipped (0/False/'' are values), every string value (literal or generated) is macro-expanded", None, ok,
+                          "" if ok else "a legal falsy random value must not be dropped; the macro expansion is a separate step after the randomizer was resolved"))
     f = m.func("_make_tree")
     checks = [
         ("$cs = relations[parent_type]", "children come from the parent type's relation"),
